@@ -378,6 +378,7 @@ def compare_case(res, pid, k):
     out = []
     g = lambda t: res.get((pid, k, t))
     IR, IP, OR, MS, ME, IX = g("IR"), g("IP"), g("OR"), g("MS"), g("ME"), g("IX")
+    MQ = int(g("MQ") or 0)
     if IR is None:
         out.append(("impl-exception", IX or "no output"))
         return out
@@ -395,10 +396,12 @@ def compare_case(res, pid, k):
         all(a[0] == b[0] and refines(a[1], b[1]) for a, b in zip(fr, fp)) and \
         all(a[0] == b[0] and refines(a[1], b[1]) and refines(a[2], b[2]) for a, b in zip(rr, rp))
     if not ok:
-        # With an undefined condition the software run has no meaning (MS = UNDEF) and the reference
-        # simulator is not monotone for undefined mux selectors (DESIGN.md 3.1), so a postprocessed
-        # circuit may legitimately be less defined there; counted, not a violation of C05.
-        out.append(("postprocess-changes-values" if MS != "UNDEF" else "info-post-differs-under-undefined-condition",
+        # With an undefined condition the software run has no meaning (MS = UNDEF), and the reference
+        # simulator is not monotone where a multiplexer selector is undefined (it merges the inputs
+        # and ignores out-of-range candidates, DESIGN.md 3.1 / Q6; MQ = number of such muxes under
+        # this valuation, computed by the model driver), so a postprocessed circuit may legitimately
+        # be less defined there; counted, not a violation of C05.
+        out.append(("postprocess-changes-values" if (MS != "UNDEF" and MQ == 0) else "info-post-differs-under-undefined-selector",
                     dict(raw=IR, post=IP)))
     fm, rm = split_fr(ME)
     if MS != "UNDEF":
@@ -411,7 +414,7 @@ def compare_case(res, pid, k):
         livep = [x for x in rp if x[1] == "1"]
         if fs != fr or rs != livei:
             out.append(("impl-vs-sequential", dict(expected=MS, observed=IR, stage="un-postprocessed")))
-        elif not (len(fs) == len(fp) and len(rs) == len(livep) and
+        elif MQ == 0 and not (len(fs) == len(fp) and len(rs) == len(livep) and
                   all(a[0] == b[0] and refines(a[1], b[1]) for a, b in zip(fs, fp)) and
                   all(a[0] == b[0] and refines(a[2], b[2]) for a, b in zip(rs, livep))):
             # postprocessing may make undefined bits defined, never change or lose defined ones
@@ -565,6 +568,18 @@ def feature_tag(lines):
     neg = any(" not " in (" " + l + " ") for l in lines)
     if two_way and neg:
         return "two-way-dynamic-select-multibit-index"
+    # two branches of one IF chain with textually identical conditions (the later one can never run)
+    chains = []
+    for l in lines:
+        t = l.split(" ", 1)
+        if t[0] == "IF":
+            chains.append({t[1]})
+        elif t[0] in ("ELIF", "ELSP") and chains:
+            if t[1] in chains[-1] and not (t[0] == "ELSP" and t[1].startswith("s ") and len(t[1].split()) == 2):
+                return "same-condition-twice-in-chain"
+            chains[-1].add(t[1])
+        elif t[0] == "END" and chains:
+            chains.pop()
     # ELSE IF (with a space) whose condition is a bare variable reference
     if any(l.split()[0] == "ELSP" and len(l.split()) == 3 and l.split()[1] == "s" for l in lines if l.split()):
         return "else-if-same-condition-port"
@@ -697,6 +712,11 @@ def main():
     rep.assumptions = [
         "modelled, not verified: FrontendDefs.elab_* is a hand transcription of ConditionalScope.cpp / BitVector.cpp / Bit.cpp / "
         "BitVectorSlice.cpp; node semantics (mux, rewire, logic, add, eq) transcribed from the simulateEvaluate functions; agreement is sampled (this run)",
+        "elab_correct carries the hypothesis no_bare_else_if: the condition of an `ELSE IF` written with a space is not a bare "
+        "variable reference; without it the frontend really deviates (theorem elab_else_if_same_condition_refuted, corpus case "
+        "else_if_same_condition, KNOWN_FINDINGS known: line); IF/ELSEIF/ELSE programs are unrestricted",
+        "raw [= postprocessed is only demanded where no multiplexer selector is undefined under the valuation (count MQ from the "
+        "model driver): the reference simulator is not monotone for undefined selectors (DESIGN.md 3.1, Q6)",
         "programs are lexically scoped C++: a variable declared in a block is not used after the block (the model pops it like C++ destroys it)",
         "every variable is initialised at its declaration (an unassigned gatery signal is a forward reference / loop, outside this property)",
         "not modelled: Node_Default / BitDefault declarations (by design a default-declared signal that is later assigned "
@@ -712,7 +732,7 @@ def main():
     proof_broken = (not res_proof["ok"]) or driver is None
     hard = [m for m in mism if m[2] in ("impl-vs-oracle", "impl-vs-sequential", "postprocess-changes-values", "postprocess-exception", "impl-exception")]
     info = [m for m in mism if m[2].startswith("info-")]
-    rep.cov["histogram"]["cases_post_less_defined_under_undefined_condition"] = len(info)
+    rep.cov["histogram"]["cases_post_less_defined_under_undefined_selector"] = len(info)
     mism = [m for m in mism if not m[2].startswith("info-")]
     soft = [m for m in mism if m not in hard]
     known, _fixed = V.known_findings(CID)
